@@ -1,7 +1,47 @@
 import FormulaeModel.Driver.Base
+import FormulaeModel.Driver.C04
+import FormulaeModel.Spec.C16
 namespace FormulaeModel.Driver.C16
-open Lean FormulaeModel FormulaeModel.Driver
+open Lean FormulaeModel FormulaeModel.Driver FormulaeModel.Design FormulaeModel.Driver.C04
 
-def handle (_op : String) (_j : Json) : Option Json := none
+def levelsOfJson (j : Json) (k : String) : List (Option Level) :=
+  (getArr j k).map (fun x => match x with
+    | .null => none
+    | v => levelOfJson v)
+
+def entriesOfJson (j : Json) (k : String) : List Entry :=
+  (getArr j k).map (fun x => match x with | .null => none | v => ratOfJson? v)
+
+/-- Spec.C16 on columns the implementation returned -/
+def handle (op : String) (j : Json) : Option Json :=
+  match op with
+  | "c16_binary" =>
+    let xs := levelsOfJson j "x"
+    let s := match j.getObjVal? "success" with
+      | .ok .null => none
+      | .ok v => levelOfJson v
+      | _ => none
+    let expected := Spec.C16.binaryExpected xs s
+    let got : Option (List Entry) := match j.getObjVal? "column" with
+      | .ok (.arr _) => some (entriesOfJson j "column")
+      | _ => none
+    let ok := match expected, got with
+      | some e, some g => Spec.C16.colEq e g
+      | none, none => getStr j "err" == "ValueError"
+      | _, _ => false
+    some (Json.mkObj [("holds", ok), ("expected_refused", expected.isNone)])
+  | "c16_column" =>
+    -- a column that must equal a given vector (offset, I, prediction-time trials)
+    some (Json.mkObj [("holds", Spec.C16.colEq (entriesOfJson j "expected") (entriesOfJson j "column"))])
+  | "c16_prop" =>
+    let ss := entriesOfJson j "successes"
+    let ts := entriesOfJson j "trials"
+    let valid := Spec.C16.propValid ss ts
+    let accepted := getBool j "accepted"
+    let ok := valid == accepted &&
+      (!accepted || (Spec.C16.colEq ss (entriesOfJson j "col0") && Spec.C16.colEq ts (entriesOfJson j "col1"))) &&
+      (accepted || getStr j "err" == "ValueError")
+    some (Json.mkObj [("holds", ok), ("valid", valid)])
+  | _ => none
 
 end FormulaeModel.Driver.C16
